@@ -274,8 +274,68 @@ func (c *ExprCtx) load(addr ssa.Value) string {
 			return "^" + c.load(b)
 		}
 		return "^" + x.Name()
+	case *ssa.FieldAddr:
+		// a field of a struct type that did not exist on the reviewed tree (a refactoring moved
+		// locals into a struct) and that is stored exactly once in the module reads as what is
+		// stored there
+		if v := newTypeFieldValue(x); v != nil && c.depth < 20 {
+			c.depth++
+			s := c.Expr(v)
+			c.depth--
+			return s
+		}
 	}
 	return c.place(addr)
+}
+
+// theWorld: the program under analysis (set by the driver; used by value resolution that needs
+// to look beyond one function).
+var theWorld *World
+
+var newFieldCache = map[string]ssa.Value{}
+
+// newTypeFieldValue: for a field of a module struct type that is not on the reviewed list, the
+// value of its only store in the module (nil if the type is known, or the field is stored more
+// than once or never).
+func newTypeFieldValue(fa *ssa.FieldAddr) ssa.Value {
+	w := theWorld
+	if w == nil || !w.Normalized && !w.HasNewTypes {
+		return nil
+	}
+	n, ok := deref(fa.X.Type()).(*types.Named)
+	if !ok || n.Obj().Pkg() == nil || !strings.HasPrefix(n.Obj().Pkg().Path(), modPath) {
+		return nil
+	}
+	if !w.NewTypes[n.Obj().Pkg().Path()+"."+n.Obj().Name()] {
+		return nil
+	}
+	key := n.Obj().Pkg().Path() + "." + n.Obj().Name() + "." + fieldAddrName(fa)
+	if v, ok := newFieldCache[key]; ok {
+		return v
+	}
+	var val ssa.Value
+	cnt := 0
+	for _, fn := range w.ModFuncs() {
+		eachInstr(fn, func(in ssa.Instruction) {
+			st, ok := in.(*ssa.Store)
+			if !ok {
+				return
+			}
+			f2, ok := st.Addr.(*ssa.FieldAddr)
+			if !ok || fieldAddrName(f2) != fieldAddrName(fa) {
+				return
+			}
+			if n2, ok := deref(f2.X.Type()).(*types.Named); ok && n2 == n {
+				cnt++
+				val = st.Val
+			}
+		})
+	}
+	if cnt != 1 {
+		val = nil
+	}
+	newFieldCache[key] = val
+	return val
 }
 
 // escapesToClosureWrite: the alloc is captured by a closure that stores to it.
